@@ -231,6 +231,7 @@ func c08LoopCase(seed uint64, caseNo int, _ string) (string, bool) {
 	nn := 1 + r.intn(2)
 	var nodes []*loopNode
 	var ce, ue []string
+	preseed := false
 	for k := 0; k < nn; k++ {
 		c := lcfg{kind: pick(r, []byte{'L', 'L', 'B'}), id: "i" + itoa(k), addr: "a" + itoa(k) + ":1", zone: pick(r, []string{"", "z1"}),
 			numTokens: 1 + r.intn(3), observe: r.chance(1, 2), hbTimeout: 61, readinessRing: true,
@@ -238,11 +239,40 @@ func c08LoopCase(seed uint64, caseNo int, _ string) (string, bool) {
 		if c.kind == 'B' && r.chance(1, 3) {
 			c.forget = 201
 		}
+		// RESTART ON A LEFT-BEHIND ENTRY: the store already holds the first lifecycler's entry (what an abrupt exit leaves),
+		// mostly ACTIVE, with FEWER tokens than NumTokens (num_tokens raised between the runs), observe period mostly on:
+		// the join timer's guard (`if i.GetState() == PENDING`, glue of Lifecycler.loop) decides what happens next.
+		if k == 0 && c.kind == 'L' && r.chance(1, 3) {
+			preseed = true
+			c.numTokens = 2 + r.intn(2)
+			c.observe = r.chance(3, 4)
+		}
 		n := &loopNode{cfg: c}
 		n.rec = &loopRec{w: w, idx: k, id: c.id}
 		nodes = append(nodes, n)
 		ce = append(ce, c.enc())
 		ue = append(ue, b01(c.unregister))
+	}
+	init0 := "nil"
+	if preseed {
+		c := nodes[0].cfg
+		st := pick(r, []ring.InstanceState{ring.ACTIVE, ring.ACTIVE, ring.ACTIVE, ring.ACTIVE, ring.LEAVING, ring.PENDING, ring.JOINING})
+		nt := r.intn(c.numTokens)
+		var toks []uint32
+		for t := uint32(1 + r.intn(8)); len(toks) < nt; t += uint32(1 + r.intn(8)) {
+			toks = append(toks, t)
+		}
+		old := time.Now().Unix() - int64(2+r.intn(5))
+		inst := ring.InstanceDesc{Id: c.id, Addr: pick(r, []string{c.addr, c.addr, "old:9"}), Zone: c.zone, State: st, Tokens: toks,
+			Timestamp: old, RegisteredTimestamp: old - int64(r.intn(50))}
+		d := ring.NewDesc()
+		d.Ingesters[c.id] = inst
+		if err := inner.CAS(ctx, c08Key, func(interface{}) (interface{}, bool, error) { return d, false, nil }); err != nil {
+			panic(err)
+		}
+		cur, _ := inner.Get(ctx, c08Key)
+		init0 = w.enc(cur)
+		w.tracked = init0
 	}
 	nap := func(lo, hi int) { time.Sleep(time.Duration(lo+r.intn(hi-lo+1)) * time.Millisecond) }
 	start := func(k int) {
@@ -334,7 +364,7 @@ func c08LoopCase(seed uint64, caseNo int, _ string) (string, bool) {
 	if w.bad {
 		return "", false
 	}
-	return strings.Join([]string{"C08.loop", "loop/k" + itoa(caseNo), strings.Join(ce, ";"), strings.Join(ue, ";"), "nil", strings.Join(w.trace, " ")}, "\t"), true
+	return strings.Join([]string{"C08.loop", "loop/k" + itoa(caseNo), strings.Join(ce, ";"), strings.Join(ue, ";"), init0, strings.Join(w.trace, " ")}, "\t"), true
 }
 
 // loopStart runs the loop cases in the background (they mostly sleep), returns a function that waits for the lines.
